@@ -910,8 +910,9 @@ class FlippedEncoding(LazyIndexMap):
         indices = indices.copy()
         shape = self.shape
         for a in self._axes:
+            # flipped index along an axis is `n - 1 - i`
             indices[:, a] *= -1
-            indices[:, a] += shape
+            indices[:, a] += shape[a] - 1
         return indices
 
     def _from_base_indices(self, base_indices):
